@@ -392,7 +392,10 @@ def pad(a, pw, mode='constant'):
     out._a[tuple(slice(int(p[0]), int(p[0]) + s) for s, p in zip(a.shape, pw))] = a
     return out
 def tile(a, reps): return SArray(_np.tile(_to_obj(a), reps))
-def delete(a, obj, axis=None): return SArray(_np.delete(_to_obj(a), obj, axis))
+def delete(a, obj, axis=None):
+    if isinstance(a, BArray):
+        return BArray(_np.delete(a._a, obj, axis))
+    return SArray(_np.delete(_to_obj(a), obj, axis))
 def expand_dims(a, axis): return SArray(_np.expand_dims(_to_obj(a), axis))
 def squeeze(a, axis=None): return _wrap(_to_obj(a).squeeze(axis))
 def reshape(a, shape): return SArray(_to_obj(a).reshape(shape))
